@@ -39,20 +39,36 @@ func typeStrQ(t types.Type) string {
 	return types.TypeString(t, func(p *types.Package) string { return p.Path() })
 }
 
-// matchCallee: pattern matches if it equals the full name, or is a suffix after '.' or '/'
-// (e.g. "ReadFile" matches any method ReadFile; "fs.ReadFile" is not supported).
+// matchCallee: comma-separated alternatives; "!alt" excludes. An alternative is a full
+// name, a bare function/method name, or "X.*" (every function of package X / method of type X).
 func matchCallee(pattern, name string) bool {
-	if pattern == "*" {
+	matched := false
+	for _, alt := range strings.Split(pattern, ",") {
+		alt = strings.TrimSpace(alt)
+		if alt == "" {
+			continue
+		}
+		neg := strings.HasPrefix(alt, "!")
+		alt = strings.TrimPrefix(alt, "!")
+		if matchOne(alt, name) {
+			if neg {
+				return false
+			}
+			matched = true
+		}
+	}
+	return matched
+}
+
+func matchOne(pattern, name string) bool {
+	if pattern == "*" || pattern == name {
 		return true
 	}
-	if pattern == name {
-		return true
+	if strings.HasSuffix(pattern, ".*") {
+		p := strings.TrimSuffix(pattern, "*") // "X."
+		return strings.HasPrefix(name, p) || strings.Contains(name, "/"+p) || strings.Contains(name, "."+p)
 	}
 	if strings.HasSuffix(name, "."+pattern) || strings.HasSuffix(name, "/"+pattern) {
-		return true
-	}
-	// method name only
-	if i := strings.LastIndex(name, "."); i >= 0 && name[i+1:] == pattern {
 		return true
 	}
 	return false
@@ -473,10 +489,30 @@ func (x *fnCtx) callSiteClauses(st *State, fr *Frame, in ssa.Instruction, c *ssa
 		if c.IsInvoke() {
 			names["$recv"] = nameBind{v: fnv}
 		}
+		// own parameters by position ($p0 is the first non-receiver parameter)
+		skip := 0
+		if x.fn.Signature.Recv() != nil {
+			skip = 1
+		}
+		for i := skip; i < len(fr.params); i++ {
+			names[fmt.Sprintf("$p%d", i-skip)] = nameBind{v: fr.params[i]}
+		}
 		for i, a := range args {
 			names[fmt.Sprintf("$%d", i-off)] = nameBind{v: a}
 		}
 		env := &specEnv{x: x, st: st, heap: st.heap, old: fr.oldHeap, names: names, fr: fr}
+		if strings.Contains(cl.Text, "$arg") {
+			// one obligation per string-typed argument
+			for i, a := range args {
+				if a.Tup != nil || !isString(a.T) {
+					continue
+				}
+				names["$arg"] = nameBind{v: a}
+				g := x.evalSpecBool(env, cl.Expr)
+				x.addVC(st, x.short, "at_call", cl.Ord, fmt.Sprintf("%d.arg%d", site, i), g, fmt.Sprintf("at call of %s, string argument %d: %s", name, i, cl.Text), x.eng.posStr(in.Pos()))
+			}
+			continue
+		}
 		g := x.evalSpecBool(env, cl.Expr)
 		x.addVC(st, x.short, "at_call", cl.Ord, fmt.Sprintf("%d", site), g, fmt.Sprintf("at call of %s: %s", name, cl.Text), x.eng.posStr(in.Pos()))
 	}
